@@ -98,6 +98,13 @@ var plan = []genFile{
 		{"fai", "Record.position", "position"},
 		{"fai", "Record.endOfLineOffset", "endOfLineOffset"},
 		{"fai", "Record.isValid", "isValid"},
+		{"fai", "min", "min"},
+	}, consts: []constSpec{
+		{"fai", "nameField", "nameField"},
+		{"fai", "lengthField", "lengthField"},
+		{"fai", "startField", "startField"},
+		{"fai", "basesField", "basesField"},
+		{"fai", "bytesField", "bytesField"},
 	}},
 	{module: "Sam", consts: []constSpec{
 		{"sam", "consume", "consume"},
